@@ -115,6 +115,24 @@ CaseOK ==
              ~IsUnres(Lhs.r[i]) /\ Lhs.r[i].v.t \notin {"str", "list", "map", "bool"})
 
 ---------------------------------------------------------------------------
+\* C10: every result of a query points into the document: a resolved value sits at its path; an
+\* unresolved result names a point that exists while the next queried segment does not
+NextMissing(part, v) ==
+  CASE part.p = "key" -> ~IsMap(v) \/ KeyIndex(v, part.k) = 0
+    [] part.p = "at" -> ~IsList(v) \/ part.i >= Len(v.v)
+    [] part.p \in {"idx", "all"} -> (IsList(v) \/ IsMap(v)) /\ Len(v.v) = 0
+    [] part.p = "filter" -> ~IsList(v) /\ ~IsMap(v)
+    [] OTHER -> TRUE
+PathOK ==
+  (phase = "case" /\ ~Lhs.err) =>
+  \A i \in 1 .. Len(Lhs.r) :
+    LET r == Lhs.r[i]
+        at == Resolve(Root, r.v.p, 1) IN
+    /\ r.v.o = "d"
+    /\ at.t # "none" /\ NoPaths(at) = NoPaths(r.v)
+    /\ IsUnres(r) => (r.rem >= 1 /\ r.rem <= Len(Queries[qi]) /\ NextMissing(Queries[qi][r.rem], r.v))
+
+---------------------------------------------------------------------------
 \* C15: variables are transparent - the clause with its literal right-hand side, a prefix of
 \* its query or its query right-hand side bound to a let variable (file scope and rule scope)
 \* gets the status of the clause itself
